@@ -1,12 +1,16 @@
 """
 C04 — survey rows map one-to-one, in order and nesting, onto instance and body.
 
-Theorems: Pyxv/Proofs/C04.lean (`stack_refines_nest`: the begin/end stack machine equals the
-grammar reading, errors included; `instance_shape`; `body_controls_cover_paths`; helper placement).
-Tie/oracle: for every generated sheet the implementation's primary instance (names, order,
-nesting, template marks) and body (control element names and refs, in document order) must equal
-what the Lean pipeline computes from the rows alone — the Lean pipeline *is* the spec shape here
-(`nest` + `plain` + the type table regenerated from /repo).
+Theorems: Pyxv/Proofs/C04.lean (`stack_refines_nest`: the begin/end stack machine equals the grammar
+reading, errors included; `instance_shape`; `body_controls_cover_paths`; helper placement) and
+Pyxv/Proofs/C04Controls.lean (`body_attrs_of_row`: the attributes of every body control as the code builds them
+= the table-driven spec, as finite maps; `appearance_independent_of_parameters` / `parameters_independent_of_appearance`;
+`control_iff_visible`; `body_order_is_row_order`; facts about the regenerated type table).
+Tie/oracle: for every generated sheet the implementation's primary instance (names, order, nesting, template
+marks), body control list (element names and refs, document order) and the attribute map of every body control
+(everything but ref/nodeset) must equal what the Lean pipeline computes from the rows alone (`controls.model`):
+`ctl` / `ctlAttrs` are the model of the code, `specAttrs` is `Spec.rowSpecs` (the property's statement); the
+documented element / media type per type comes from the harness's own table.
 """
 
 from __future__ import annotations
@@ -19,16 +23,67 @@ from vcore import Failure
 
 PROP = "C04"
 RULE = (
-    "generated sheets of question/group/repeat rows of every simple type of the regenerated type table, "
-    "selects (+or_other spellings), count helpers, disabled/blank rows, depth to 5 (quick) / 8 (thorough); "
-    "distinct by canonical hash; non-trivial = accepted and containing a group or repeat"
+    "two families, distinct by canonical hash: (1) structure — sheets of question/group/repeat rows of every simple type of the "
+    "regenerated type table, selects (+or_other spellings), count helpers, externals inside repeats, disabled/blank rows, depth to "
+    "5 (quick) / 8 (thorough); (2) attributes — every parameterised type x appearance x body::x/rows/autoplay columns x valid and "
+    "(15% of sheets) invalid parameter cells x label/hint/neither/media x calculation x trigger, groups/repeats with "
+    "appearance/intent/body::x/jr:count, unlabelled sections of invisible rows, empty sections; non-trivial = accepted and "
+    "containing a group/repeat or a control with attributes"
 )
 
 
-def form_case(ctx, form):
+def model_call(ctx, form, root="data"):
+    """The structural pipeline plus the control attributes (`controls.model`)."""
+    if form.get("entities"):
+        return {"outcome": "unsupported", "why": "entities sheet"}
+    rows = [formobs.canon_cells(x) for x in form["survey"]]
+    lists = sorted({x.get("list_name", x.get("list name", "")) for x in form.get("choices", [])})
+    settings = formobs.canon_cells(form["settings"][0]) if form.get("settings") else []
+    for k, v in settings:
+        if k == "name":
+            root = v
+    return ctx.driver.call("controls.model", rows=rows, lists=lists, settings=settings, root=root)
+
+
+# the harness's own copy of the documented control element / media type per question type (XLSForm
+# reference table; independent of /repo on purpose, like formobs.CANON)
+DOCUMENTED = {
+    "text": ("input", None), "string": ("input", None), "integer": ("input", None), "int": ("input", None),
+    "decimal": ("input", None), "date": ("input", None), "time": ("input", None), "dateTime": ("input", None),
+    "note": ("input", None), "geopoint": ("input", None), "geotrace": ("input", None), "geoshape": ("input", None),
+    "barcode": ("input", None), "range": ("range", None), "acknowledge": ("trigger", None), "trigger": ("trigger", None),
+    "image": ("upload", "image/*"), "photo": ("upload", "image/*"), "audio": ("upload", "audio/*"),
+    "video": ("upload", "video/*"), "file": ("upload", "application/*"),
+    "select_one": ("select1", None), "select_multiple": ("select", None), "rank": ("odk:rank", None),
+}
+
+
+def documented_check(ctx, form, octl):
+    """Element name and media type of every observed control of a documented type, by the row's (unique) name."""
+    names = [r.get("name") for r in form["survey"] if r.get("name")]
+    by_name = {o[1].rsplit("/", 1)[-1]: o for o in octl if o[0] not in ("group", "repeat")}
+    for r in form["survey"]:
+        nm = r.get("name")
+        base = str(r.get("type", "")).split(" ")[0]
+        if nm in by_name and names.count(nm) == 1 and base in DOCUMENTED and not str(r.get("type", "")).startswith(("begin", "end")):
+            tag, _, a = by_name[nm]
+            dtag, dmt = DOCUMENTED[base]
+            mt = a.get("mediatype") if "body::mediatype" not in r else dmt
+            if tag != dtag or mt != dmt:
+                ctx.fail(Failure("documented-control", f"a {base!r} row renders as <{tag} mediatype={a.get('mediatype')!r}>, documented: "
+                                 f"<{dtag} mediatype={dmt!r}>", {"form": form}))
+
+
+def attr_str(a):
+    return "{" + ", ".join(f"{k}={v!r}" for k, v in sorted(a.items())) + "}"
+
+
+def form_case(ctx, form, family="structure"):
     r = impl.run(form)
-    m = formcommon.model_call(ctx, form)
-    ctx.count(f"impl:{r['class']}/model:{m['outcome']}")
+    m = model_call(ctx, form)
+    ctx.count(f"{family}: impl:{r['class']}/model:{m['outcome']}")
+    if m["outcome"] == "unsupported":
+        ctx.count("unsupported: " + m.get("why", "?"))
     nontrivial = False
     if r["ok"] and m["outcome"] == "ok":
         obs = formobs.observe(r["xform"])
@@ -42,12 +97,38 @@ def form_case(ctx, form):
         if [list(x) for x in obs["ctl"]] != [list(x) for x in m["ctl"]]:
             ctx.fail(Failure("body-shape", f"body controls differ: impl {obs['ctl']} spec {m['ctl']}", {"form": form}))
             ctx.mismatch("body controls", form, obs["ctl"], m["ctl"])
+        else:
+            # second half: the attributes of every body control (finite maps; `ref` / `nodeset` are the refs above)
+            octl = formobs.observe_controls(r["xform"])
+            documented_check(ctx, form, octl)
+            mattrs = [[t, dict(a)] for t, a in m["ctlAttrs"]]
+            sattrs = [dict(a) for a in m["specAttrs"]]
+            if not (len(octl) == len(mattrs) == len(sattrs)) or any(o[0] != x[0] for o, x in zip(octl, mattrs)):
+                ctx.mismatch("control list of the attribute model is not aligned with the body model", form,
+                             [o[:2] for o in octl], [x[0] for x in mattrs])
+            else:
+                for (tag, ref, a), (_, ma), sa in zip(octl, mattrs, sattrs):
+                    if a:
+                        nontrivial = True
+                        ctx.count("controls with attributes")
+                        for k in a:
+                            ctx.count("attr " + tag + "/" + k)
+                    if a != sa:
+                        ctx.fail(Failure("body-attrs", f"attributes of <{tag} ref={ref}> are {attr_str(a)}, the row dictates "
+                                         f"{attr_str(sa)}", {"form": form}, extra={"tag": tag, "ref": ref, "impl": a, "spec": sa}))
+                    if a != ma:
+                        ctx.mismatch(f"attributes of <{tag} ref={ref}>", form, attr_str(a), attr_str(ma))
+                    if ma != sa:
+                        ctx.mismatch(f"model vs spec attributes of <{tag} ref={ref}> (body_attrs_of_row)", form, attr_str(sa), attr_str(ma))
     elif r["ok"] and m["outcome"] == "error":
         ctx.mismatch("model rejects, implementation accepts", form, "ok", m["err"])
         ctx.fail(Failure("accepted-malformed", f"sheet the grammar rejects was accepted: {m['err']}", {"form": form}))
     elif r["class"] == "pyxform" and m["outcome"] == "ok":
         ctx.mismatch("implementation rejects, model accepts", form, r["msg"][:300], "ok")
         ctx.fail(Failure("rejected-wellformed", "well-formed sheet rejected: " + r["msg"][:200], {"form": form}))
+    elif r["class"] == "internal" and m["outcome"] in ("ok", "error"):
+        ctx.mismatch("implementation crashes", form, r["msg"][:300], m["outcome"])
+        ctx.fail(Failure("crash", "internal exception " + r["msg"][:200] + " at " + r.get("site", ""), {"form": form}))
     ctx.record({"form": form}, nontrivial)
 
 
@@ -56,10 +137,10 @@ ALL_SIMPLE = None
 
 def explore(ctx, factor, bs):
     rng = ctx.rng
-    n = ctx.pick(1200, 30000) * factor
+    n = ctx.pick(1000, 20000) * factor
     import gen
     for i in range(n):
-        form = formcommon.structure_form(rng, tier_big=not ctx.quick())
+        form = formcommon.structure_form(rng, tier_big=not ctx.quick(), external_in_repeat=True)
         # layout noise that must vanish: blank rows, disabled rows
         if rng.random() < 0.3:
             rows = []
@@ -71,6 +152,9 @@ def explore(ctx, factor, bs):
                 rows.append(row)
             form["survey"] = rows
         form_case(ctx, form)
+    import controls_gen
+    for i in range(ctx.pick(1500, 20000) * factor):
+        form_case(ctx, controls_gen.attr_form(rng, big=not ctx.quick()), family="attributes")
 
 
 def replay(ctx, payload, bs):
